@@ -601,13 +601,17 @@ struct WrappedBlock<T> {
     allow_overflow: bool,
 }
 //@end
+// a line fits (C02): at most `width` columns; with overflow allowed the only wider line is a single over-wide character (C11)
+spec fn fits<T>(l: TaggedLine<T>, width: usize, allow: bool) -> bool { l.len <= width || (allow && l.len <= 2) }
+spec fn lines_wf<T>(t: Seq<TaggedLine<T>>) -> bool { forall|i: int| 0 <= i < t.len() ==> (#[trigger] t[i]).wf() }
+spec fn lines_fit<T>(t: Seq<TaggedLine<T>>, width: usize, allow: bool) -> bool { forall|i: int| 0 <= i < t.len() ==> fits(#[trigger] t[i], width, allow) }
 impl<T> WrappedBlock<T> {
     // the representation invariant, one conjunct per spec fn so that a failing postcondition names it
-    spec fn inv_wf(&self) -> bool { self.line.wf() && forall|i: int| 0 <= i < self.text@.len() ==> (#[trigger] self.text@[i]).wf() }
+    spec fn inv_wf(&self) -> bool { self.line.wf() && lines_wf(self.text@) }
     spec fn inv_ws(&self) -> bool { self.wslen > 0 ==> self.spacetag.is_some() }
     spec fn inv_bound(&self) -> bool { self.wslen + self.wordlen + self.width + self.word.len <= 0x4000_0000_0000_0000 && self.line.len <= 0x4000_0000_0000_0000 }
-    spec fn line_fits(&self, l: TaggedLine<T>) -> bool { l.len <= self.width || (self.allow_overflow && l.len <= 2) }
-    spec fn inv_out(&self) -> bool { forall|i: int| 0 <= i < self.text@.len() ==> self.line_fits(#[trigger] self.text@[i]) }
+    spec fn line_fits(&self, l: TaggedLine<T>) -> bool { fits(l, self.width, self.allow_overflow) }
+    spec fn inv_out(&self) -> bool { lines_fit(self.text@, self.width, self.allow_overflow) }
     spec fn inv_fit(&self) -> bool { self.line.len <= self.width }
     spec fn inv_word(&self) -> bool { self.wordlen == cwid(self.word.v@) && all_some(self.word.v@) }
     spec fn inv_base(&self) -> bool { self.inv_wf() && self.inv_ws() && self.inv_bound() && self.inv_out() }
@@ -1017,7 +1021,7 @@ impl<T: Clone + Eq + Debug + Default> WrappedBlock<T> {
             old(self).allow_overflow ==> r.is_ok(), //@w @C11 #at_overflow_ok
             final(self).text@.len() >= old(self).text@.len(), final(self).text@.take(old(self).text@.len() as int) =~= old(self).text@, //@w @C03 #at_keeps_emitted_lines
     {
-        hide(sw); hide(cwid); hide(off); hide(flat); hide(flat_str); hide(flat_elt); hide(spaces); //@w
+        hide(sw); hide(cwid); hide(off); hide(flat); hide(flat_str); hide(flat_elt); hide(spaces); hide(lines_wf); hide(lines_fit); //@w
         html_trace!("WrappedBlock::add_text({}), {:?}", text, main_tag);
         // We walk character by character.
         // 1. First, build up whitespace columns in self.wslen
